@@ -19,8 +19,8 @@ from harness.props.c05 import ref_delete
 MANIFEST = dict(
     category="proof",
     technique="Lean 4 theorems over a hand-written model of the xpath engine + differential correspondence with the implementation",
-    text="Lean: the model of _find/_add/__setitem__ follows the code (with the fix patches C03-a, C03-b, C03-c applied) branch by "
-         "branch, including the in-place wrap done by the new() search and the take-back of a refused creation. Proved, "
+    text="Lean: the model of _find/_add/__setitem__ follows the code (with the fix patches C03-a, C03-b, C03-c, C04-a applied) branch "
+         "by branch, including the conversion of a single value by name[new()] and the take-back of a refused creation. Proved, "
          "unbounded in tree size, depth of the existing node q and length of the created chain, for canonical '//'-rooted paths "
          "with plain names: (1) the miss: after tokens that spell an existing dict node, a plain key or name[idx] token whose "
          "name is absent makes _find report NOT FOUND at that node with the tree untouched (C03_find_miss_key, "
@@ -40,12 +40,12 @@ MANIFEST = dict(
          "of a plain list = finding C03-c) are repaired and their witnesses are positive instances now (C03_nested_new_ok, "
          "C03_nested_idx_ok, C03_new_in_plain_list_ok); C03_create_partial is the special case the read-back theorems use; "
          "(3c) a refused assignment: for EVERY tree, path text, value and exception, after a raising d[xpath]=v the tree is "
-         "the tree before the call or the tree the search returned (C03_err_tree_is_search_tree) - whatever _add had "
-         "inserted and whatever the store did is gone; hence unchanged whenever the search returned the tree it was given "
-         "(C03_err_leaves_tree_partial; instance C03_refused_leaves_nothing: d['n/m[3]']=v). The unhypothesised "
-         "C03_err_leaves_tree_stmt is still refuted (C03_err_leaves_tree_false via C03_err_wrap_stays_cex): the new() step "
-         "of the SEARCH turns a single value into [value] before anything is created and that stays (finding C03-d = the "
-         "setitem face of C04-a); "
+         "the tree before the call or the tree the search returned (C03_err_tree_is_search_tree, needs fix C03-a only) - whatever _add "
+         "had inserted and whatever the store did is gone; and since the search writes nothing (fix C04-a: the new() step "
+         "reports a single value as the miss of name[new()] and _add converts it only when the creation succeeds) the FULL "
+         "statement holds: C03_err_leaves_tree : C03_err_leaves_tree_stmt - after a raising d[xpath]=v the tree is the tree "
+         "before the call (instances C03_refused_leaves_nothing: d['n/m[3]']=v, C03_refused_no_wrap: d['k[new()]/x[5]']=v on "
+         "a single value k; C03_err_leaves_tree_partial is the form that does not depend on fix C04-a); "
          "(4) frame: every node that existed keeps position and value, except ancestors of the written slot; elements of the "
          "list stay, a wrapped value moves below index 0 (C03_frame_new_slot, C03_frame_append, C03_frame_wrap); read-back: "
          "for every creation path of C03_create_partial, getItem through xpath.replace('new()', 'last()') returns v and does "
@@ -207,8 +207,7 @@ def ref_create(ref, base, steps, v):
 
 
 def in_known(c, detail):
-    if isinstance(detail, dict) and detail.get("only_wrap_stays"):
-        return "C03-d"
+    # no open class: C03-a/b/c are repaired, C03-d (the conversion made by the search stays) went with fix C04-a
     return None
 
 
